@@ -16,6 +16,7 @@ import numpy as np
 
 from vf import core
 from vf import callforms
+from vf import errorpaths
 from vf import solverlib as sl
 
 PROPERTY = "C07"
@@ -288,6 +289,7 @@ def run(ctx):
     )
     callforms.run_solver_forms(ctx)
     ctx.run_cases(case_symmetry, configs(ctx.tier), sub="symmetry", chunksize=1)
+    errorpaths.run_threaded(ctx, case_symmetry, [c for c in configs(ctx.tier) if c['prof'] == 'most_aniso' and c['modes'] == 'full'][:2], threads=(2, 8))
     ctx.run_cases(case_halo_symmetry, halo_configs(ctx.tier), sub="symmetry-with-halo", chunksize=1)
     ctx.run_cases(case_cached_mirror, [{"axis": ax, "damaged": d_, "how": h_, "session": list(ss)} for ax in ("x", "y") for d_ in ("P", "M") for h_ in ("zero", "half") for ss in itertools.product("PM", repeat=4) if len(set(ss)) == 2],
                   sub="mirror symmetry through a cache with a damaged entry")
